@@ -464,7 +464,7 @@ ALL_FLAGS = [(True, True), (True, False), (False, True), (False, False)]
 def run_block(block, ctx):
     if block["part"] == "S":
         v = block["vendor"]
-        n = 4 if ctx.tier == "quick" else 5
+        n = 4 if (ctx.tier == "quick" or v in FLAT_VENDORS or v in ("optixtrans", "aruba", "b4com", "nexus")) else 5
         fs = forests(ALPHABET[v], n, 4)
         models = HW.get(v, [env.HW_MODEL[v]])
         for j, f in enumerate(fs):
